@@ -295,6 +295,10 @@ PROPS["C03"] = dict(
         rapid("HistoryCache1", "TestHistory", 1500, 40000, shards=(2, 4), config_toml=_NET + "cache_size = 1\n"),
         rapid("HistoryCache2", "TestHistory", 1500, 40000, shards=(2, 4), config_toml=_NET + "cache_size = 2\n"),
         rapid("HistoryCache3", "TestHistory", 1500, 40000, shards=(2, 4), config_toml=_NET + "cache_size = 3\n"),
+        rapid("Concurrent", "TestConcurrent", 600, 12000, shards=(4, 8), config_toml=_NET + "cache_size = 128\n",
+              retry_confirm=4, trust_unconfirmed=r"^concurrent fetch|repeated after the concurrent round"),
+        rapid("ConcurrentCache2", "TestConcurrent", 300, 6000, shards=(2, 8), config_toml=_NET + "cache_size = 2\n",
+              retry_confirm=4, trust_unconfirmed=r"^concurrent fetch|repeated after the concurrent round"),
         dict(name="Raw", test="TestReplayRaw", kind="enum", tiers=(), shards=dict(quick=1, thorough=1), replay_test="TestReplayRaw",
              config_toml=_NET + "cache_size = 1\n"),
         fuzz("Fuzz", "FuzzResponse", "150s", config_toml=_NET + "cache_size = 1\n", workers=8),
